@@ -19,6 +19,16 @@ PARENT = {"A": "Base", "B": "Base", "C": "A"}
 TAG = {"A": "a", "B": 0, "C": "", "Base": "base"}   # falsy tags are tags too
 NULL = "<<present with value None>>"
 TAGS = ["a", 0, "", "zz", None, NULL]  # None = tag absent; NULL = key present, JSON null
+UNHASH = "<<an unhashable tag value>>"
+# "hard" families: an unhashable tag value, and a variant (A, inherited by C) whose __post_init__ rejects x == 13 with a
+# KeyError of its own -- an exception raised INSIDE the selected variant must surface as it is, exactly once
+TAGS_HARD = ["a", UNHASH, "", None]
+POISON_X = 13
+
+
+def _raising_post_init(self):
+    if self.x == POISON_X:
+        raise KeyError("rejected by the variant's own __post_init__")
 
 
 class S_:
@@ -31,7 +41,7 @@ class DX(Dialect):
 
 class Family:
     def __init__(self, style, supertypes=False, tagger=False, mixin=True, fmt=None, predef=False, dialect=None, two=False,
-                 cross=False, ann_extra=False):
+                 cross=False, ann_extra=False, hard=False):
         """style: config | annotated | codec | nested (Config discriminator on the root, holder field typed with the bare root).
         dialect: None | 'always' | 'alt' (every / every other call passes dialect=DX; classes that can get ADD_DIALECT_SUPPORT).
         two: the holder has a second discriminated field with ANOTHER tagger function, declared first.
@@ -39,6 +49,8 @@ class Family:
         self.style, self.supertypes, self.tagger, self.mixin, self.fmt = style, supertypes, tagger, mixin, fmt
         self.predef, self.dialect, self.two, self.cross = predef, dialect, two, cross
         self.ann_extra = ann_extra  # other Annotated metadata precedes the Discriminator
+        self.hard = hard
+        self.tags = TAGS_HARD if hard else TAGS
         self.calls = 0
         self.classes = {}
         bases = (DataClassDictMixin,) if mixin else ()
@@ -89,6 +101,8 @@ class Family:
         # module-level style: importable by dotted name, like ordinary user classes (the fresh family of each path rebinds
         # the module attributes; local / non-importable classes are the subject of C17)
         ns = {"type": TAG[name], "__qualname__": name, "__module__": __name__}
+        if self.hard and name == "A":
+            ns["__post_init__"] = _raising_post_init
         self.classes[name] = dataclasses.make_dataclass(
             name, [("y" + name.lower(), int, dataclasses.field(default=0))], bases=(self.classes[PARENT[name]],), namespace=ns,
             module=__name__)
@@ -149,12 +163,21 @@ def observe(fam, tag, x):
     if tag is NULL:
         d["type"] = None
         tag = "<no class carries the tag None>"
+    elif tag is UNHASH:
+        d["type"] = ["u"]
     elif tag is not None:
         d["type"] = tag
     st, r = call(fam.decode, d)
     want = fam.expected(tag)
     if st == "exc" and isinstance(r, InvalidFieldValue) and fam.style in ("annotated", "nested"):
         r = r.__context__ or r.__cause__ or r  # the holder wraps the variant lookup failure
+    if want[0] == "ok" and fam.hard and x == POISON_X and "A" in fam.classes and issubclass(want[1], fam.classes["A"]):
+        # the tag is known and the class was selected; what its constructor raises is the outcome
+        if st == "ok":
+            return "accepted-input-the-variant-rejects"
+        if type(r) is not KeyError:
+            return "variant-own-error-replaced:%s" % type(r).__name__
+        return None
     if want[0] == "ok":
         if st != "ok":
             return "raised:%s" % type(r).__name__
@@ -176,14 +199,15 @@ def observe(fam, tag, x):
 
 # ------------------------------------------------------------------ histories
 class HistInput(symval.Node):
-    def __init__(self, ctx, k):
+    def __init__(self, ctx, k, hard=False):
         self.k = k
-        # event: 0 define next class, 1..6 decode TAGS[e-1], 7 create decoder
-        self.ev = [ctx.new("k", "int", "0 <= $ < 8") for _ in range(k)]
+        self.nev = len(TAGS_HARD if hard else TAGS) + 2
+        # event: 0 define next class, 1..n decode tags[e-1], n+1 create decoder
+        self.ev = [ctx.new("k", "int", "0 <= $ < %d" % self.nev) for _ in range(k)]
         self.x = ctx.new("i", "int")
 
     def make(self, env):
-        return [pick(env[e], 8) for e in self.ev]
+        return [pick(env[e], self.nev) for e in self.ev]
 
 
 class StepInput(symval.Node):
@@ -209,15 +233,15 @@ def make_input_plan(T, variant, k=3, **kw):
         return ctx, NoFieldInput(ctx)
     if variant == "nested":
         return ctx, NestedInput(ctx)
-    return ctx, HistInput(ctx, k)
+    return ctx, HistInput(ctx, k, hard=kw.get("hard", False))
 
 
 def setup(T, NODE, CTX, variant, k=3, style="config", supertypes=False, tagger=False, mixin=True, fmt=None, predef=False,
-          dialect=None, two=False, cross=False, ann_extra=False):
+          dialect=None, two=False, cross=False, ann_extra=False, hard=False):
     S = S_()
     S.node, S.ctx, S.variant = NODE, CTX, variant
     S.fam_args = dict(style=style, supertypes=supertypes, tagger=tagger, mixin=mixin, fmt=fmt, predef=predef, dialect=dialect,
-                      two=two, cross=cross, ann_extra=ann_extra)
+                      two=two, cross=cross, ann_extra=ann_extra, hard=hard)
     return S
 
 
@@ -235,12 +259,14 @@ def run_history(S, events, x_last, x_sym):
             if nxt < len(ORDER):
                 fam.define(ORDER[nxt])
                 nxt += 1
-        elif e == 7:
+        elif e == len(fam.tags) + 1:
             if fam.style == "codec":
                 fam.make_decoder()
         else:
-            tag = TAGS[e - 1]
+            tag = fam.tags[e - 1]
             bad = observe(fam, tag, 7 + j)
+            if not bad and fam.hard:
+                bad = observe(fam, tag, POISON_X)
             if bad:
                 return fam, "C12/%s" % bad, dict(events=events, at=j, tag=tag, defined=sorted(fam.classes))
             if last:
